@@ -3,8 +3,10 @@ import Dashu.Proofs.NT.ModLargeK
 import Dashu.Proofs.NT.ModInvm
 import Dashu.Proofs.NT.ModPowK
 import Dashu.Proofs.NT.ModAddK
+import Dashu.Proofs.NT.ModInvLargeB
 import Dashu.Model.NT.ModAllK
 import Dashu.Gen.ModularBuf
+import Dashu.Gen.ModularAdd
 /-
   C13 ↔ C02 link (round 5).  The multi-word ring's reductions were the last place where the C13 model
   said `% r.M` for dashu's own multi-word division (`div::div_rem_in_place`).  They are now mirrored on
@@ -95,6 +97,40 @@ theorem add_sub_neg_kernels_all (W id m : Nat) (hW : 0 < W) (r : Ring) (hnew : R
   exact ⟨addRawKL_eq hwf hn (hlt x hx) (hlt y hy), subRawKL_eq hwf hn (hlt x hx) (hlt y hy),
     subSwapRawKL_eq hwf hn (hlt x hx) (hlt y hy), negRawKL_eq hwf hn (hlt x hx), dblRawKL_eq hwf hn (hlt x hx)⟩
 
+/-- **the operators as the driver executes them since round 6** (`reduceIntKA`: `IntoRing for IBig` with the sign applied by
+    the buffer-level `negate_in_place`; `addKL`, `subBothKL` = both `sub_in_place` and `sub_in_place_swap`, `negKL`, `dblKL`)
+    are the operators of `Props.C13.hom_add / hom_sub / hom_neg / hom_dbl` on every pair of reduced integers -/
+theorem add_sub_neg_ops_all (W id m : Nat) (hW : 0 < W) (r : Ring) (hnew : Ring.new W id m = .ok r)
+    (hW4 : r.kind = .large → 4 ≤ W) (a b : Int) :
+    reduceIntKA W r a = reduceInt W r a ∧
+    (reduceIntKA W r a).addKL W (reduceIntKA W r b) = (reduceInt W r a).add (reduceInt W r b) ∧
+    (reduceIntKA W r a).subBothKL W (reduceIntKA W r b) = (reduceInt W r a).sub (reduceInt W r b) ∧
+    (reduceIntKA W r a).negKL W = (reduceInt W r a).neg ∧
+    (reduceIntKA W r a).dblKL W = (reduceInt W r a).dbl ∧
+    (reduceIntKA W r a).dblBothKL W = (reduceInt W r a).dbl := by
+  have hwf := Ring.new_wf hW hnew
+  have hlt : ∀ z, Valid r z → z < r.M := by
+    intro z ⟨v, hv, hz⟩
+    subst hz
+    exact Nat.mul_lt_mul_of_pos_right hv (Nat.two_pow_pos _)
+  have hva := hlt _ (Dashu.Props.C13.reduce_spec W r hwf a).1
+  have hvb := hlt _ (Dashu.Props.C13.reduce_spec W r hwf b).1
+  have hra : (reduceInt W r a).ring = r := (Dashu.Props.C13.reduce_spec W r hwf a).2.2.2.2
+  have hrb : (reduceInt W r b).ring = r := (Dashu.Props.C13.reduce_spec W r hwf b).2.2.2.2
+  obtain ⟨k1, k2, _, k4, k5⟩ := add_sub_neg_kernels_all W id m hW r hnew _ _
+    (Dashu.Props.C13.reduce_spec W r hwf a).1 (Dashu.Props.C13.reduce_spec W r hwf b).1
+  obtain ⟨k6, _⟩ := add_sub_neg_kernels_all W id m hW r hnew _ _
+    (Dashu.Props.C13.reduce_spec W r hwf a).1 (Dashu.Props.C13.reduce_spec W r hwf a).1
+  rw [reduceIntKA_eq hW hW4 hnew, reduceIntKA_eq hW hW4 hnew]
+  have hdbl : (reduceInt W r a).dblKL W = (reduceInt W r a).dbl := by
+    unfold Elem.dblKL Elem.dbl; rw [hra, k5]
+  refine ⟨rfl, ?_, subBothKL_eq hW hnew _ _ hra hva hvb, ?_, hdbl, ?_⟩
+  · unfold Elem.addKL Elem.add; rw [hra, k1]
+  · unfold Elem.negKL Elem.neg; rw [hra, k4]
+  · unfold Elem.dblBothKL Elem.addKL
+    simp only [sameRing, decide_true, if_true, hra, k6, hdbl]
+    simp [Elem.dbl, hra]
+
 /-- the buffer-level operations themselves (any two `n`-word buffers below an `n`-word modulus, not only ring
     residues): results as `Except`, i.e. "no `debug_assert` fails" is part of the statement -/
 theorem add_in_place_exact (W : Nat) (nd lhs rhs : List Nat) (hnd : IsWords W nd) (hl : IsWords W lhs) (hr : IsWords W rhs)
@@ -125,6 +161,35 @@ theorem add_in_place_exact (W : Nat) (nd lhs rhs : List Nat) (hnd : IsWords W nd
     exact ⟨out, ho, h1, hv⟩
   · obtain ⟨out, ho, h1, _, hv⟩ := negateInPlaceL_spec hnd hl (by omega) (by omega)
     exact ⟨out, ho, by omega, hv⟩
+
+/-- **Tie A for `integer/src/modular/add.rs`** (round 6): the buffer mirrors take their decisions by the tests REGENERATED from the
+    source text (`Gen/ModularAdd.lean`, extract target `gen_modular_add`, which also checks the called word loops, their
+    argument order and the debug assertions as a fixed shape): `add_in_place` / `dbl_in_place` subtract the modulus iff
+    `overflow || cmp_same_len(.., modulus).is_ge()`, `sub_in_place` / `sub_in_place_swap` add it back iff `overflow`,
+    `negate_in_place` subtracts from the modulus iff `!raw.0.iter().all(|w| *w == 0)`.  A change of any of these source lines
+    changes the regenerated text and this theorem no longer checks. -/
+theorem add_logic_gen (W : Nat) (nd l1 : List Nat) (overflow : Bool) (borrow : Nat) :
+    condSubL W nd l1 overflow =
+      (if Dashu.Gen.ModularAdd.add_in_place_subtracts overflow (Div.cmpSameLen l1 nd) then subModulusL W nd l1 overflow else .ok l1) ∧
+    condSubL W nd l1 overflow =
+      (if Dashu.Gen.ModularAdd.dbl_in_place_subtracts overflow (Div.cmpSameLen l1 nd) then subModulusL W nd l1 overflow else .ok l1) ∧
+    condAddL W nd l1 borrow =
+      (if Dashu.Gen.ModularAdd.sub_in_place_adds_back (decide (borrow ≠ 0)) then addModulusL W nd l1 else .ok l1) ∧
+    condAddL W nd l1 borrow =
+      (if Dashu.Gen.ModularAdd.sub_in_place_swap_adds_back (decide (borrow ≠ 0)) then addModulusL W nd l1 else .ok l1) ∧
+    negateInPlaceL W nd l1 =
+      (if Dashu.Gen.ModularAdd.negate_in_place_subtracts (l1.all (fun w => w == 0)) then subFromModulusL W nd l1 else .ok l1) := by
+  refine ⟨?_, ?_, ?_, ?_, ?_⟩
+  · unfold condSubL Dashu.Gen.ModularAdd.add_in_place_subtracts
+    cases overflow <;> cases Div.cmpSameLen l1 nd <;> simp [Ordering.isGE]
+  · unfold condSubL Dashu.Gen.ModularAdd.dbl_in_place_subtracts
+    cases overflow <;> cases Div.cmpSameLen l1 nd <;> simp [Ordering.isGE]
+  · unfold condAddL Dashu.Gen.ModularAdd.sub_in_place_adds_back
+    by_cases h : borrow = 0 <;> simp [h]
+  · unfold condAddL Dashu.Gen.ModularAdd.sub_in_place_swap_adds_back
+    by_cases h : borrow = 0 <;> simp [h]
+  · unfold negateInPlaceL Dashu.Gen.ModularAdd.negate_in_place_subtracts
+    cases l1.all (fun w => w == 0) <;> simp
 
 /-- non-vacuity: a 3-word ring with shift 3; a sum that wraps past the modulus with a carry out of the top word
     (`overflow = true`), a sum below it, a difference with borrow, the swapped form, negation of a residue whose low
@@ -314,8 +379,9 @@ theorem rem_large_gen (W : Nat) (nd : List Nat) (shift dtop : Nat) (words : List
   simp only [← buffer_logic_gen.1, decide_eq_true_eq]
   split <;> rfl
 
-/-- `mul_normalized` / `sqr_normalized` on buffers CALL the regenerated early-return test, buffer length
-    and (round 4) long-division test -/
+/-- `mul_normalized` / `sqr_normalized` on buffers CALL the regenerated early-return test, buffer length,
+    (round 4) long-division test and (round 6, `Gen/ModularAdd.lean`) the test `cmp_same_len(product, modulus).is_ge()` of the
+    conditional subtraction of a short product, which now runs C01's mirrored `sub_same_len_in_place` with its `debug_assert_zero!` -/
 theorem mul_normalized_gen (W : Nat) (r : Ring) (sq : Bool) (a b : Nat) :
     mulNormalizedWordsL W r sq a b =
       (let nd := r.ndWords W
@@ -330,7 +396,11 @@ theorem mul_normalized_gen (W : Nat) (r : Ring) (sq : Bool) (a b : Nat) :
          if p.2 ≠ 0 then .error (Div.assertErr "mul_normalized: debug_assert_zero!(shr_in_place(product, shift))")
          else if Gen.Modular.mul_normalized_needs_division n na nb = true then
            (Div.divRemInPlace W p.1 nd (Div.highestDword W nd)).map (fun o => val W (o.1.take n))
-         else if val W p.1 ≥ val W nd then .ok (val W p.1 - val W nd)
+         else if (Gen.ModularAdd.mul_normalized_subtracts (Div.cmpSameLen p.1 nd) = true
+                  ∧ Gen.ModularAdd.sqr_normalized_subtracts (Div.cmpSameLen p.1 nd) = true) then
+           (let q := subSameLen W p.1 nd 0
+            if q.2 ≠ 0 then .error (Div.assertErr "mul_normalized: debug_assert_zero!(sub_same_len_in_place(product, modulus))")
+            else .ok (val W q.1))
          else .ok (val W p.1)) := by
   unfold mulNormalizedWordsL
   simp only [← buffer_logic_gen.2.2.1, ← buffer_logic_gen.2.1, decide_eq_true_eq, Int.toNat_natCast]
@@ -340,6 +410,10 @@ theorem mul_normalized_gen (W : Nat) (r : Ring) (sq : Bool) (a b : Nat) :
     simp only [Dashu.Props.C13.glue_gt, GluePrelude.add_, decide_eq_true_eq]
     constructor <;> intro h <;> omega
   simp only [hdiv]
+  have hsub : ∀ c : Ordering, (Gen.ModularAdd.mul_normalized_subtracts c = true
+      ∧ Gen.ModularAdd.sqr_normalized_subtracts c = true) ↔ c ≠ .lt := by
+    intro c; cases c <;> decide
+  simp only [hsub]
   split
   · rfl
   · cases productLow W sq a b with
@@ -368,5 +442,57 @@ theorem product_low_gen (W : Nat) (sq : Bool) (a b : Nat) :
   have h1 := buffer_logic_gen.2.2.2.1
   have h2 := buffer_logic_gen.2.2.2.2.2.2
   simp only [h2, ← h1, decide_eq_true_eq, and_self]
+
+-- ================================================================== inv_large's buffer plumbing (round 6)
+
+/-- **`inv_large` with its buffer plumbing** (round 6; what the driver executes for `inv` and `/` of multi-word rings):
+    `debug_assert_zero!(shr_in_place(modulus))`, `debug_assert_zero!(shr_in_place(raw))`, the cofactor zero-extended in the modulus
+    buffer, `shl_in_place` (carry dropped by the code — proved zero), `debug_assert!(inv.is_valid(ring))` as `ReducedLarge::is_valid`
+    on the buffer, `negate_in_place` on the buffer: on `Valid` residues no assertion fails and the result is that of round 4's
+    mirrored `inv_large`; hence `inv` and `/` as executed are those of `Props.C13.inv_spec` / `div_spec`. -/
+theorem inv_large_buffers_all (W id m : Nat) (hW : 0 < W) (r : Ring) (hnew : Ring.new W id m = .ok r)
+    (hW4 : r.kind = .large → 4 ≤ W) (a b : Int) :
+    (∀ x, Valid r x → invRawKB W r x = invRawKP W r x) ∧
+    (reduceIntKA W r a).invKB W = .ok ((reduceInt W r a).inv) ∧
+    (reduceIntKA W r a).divKB W (reduceIntKA W r b) = (reduceInt W r a).div W (reduceInt W r b) := by
+  have hwf := Ring.new_wf hW hnew
+  have hm := hwf.mpos
+  have hkW : r.kind = .large → r.k < W := Ring.new_large_k hW hnew
+  have hraw : ∀ x, Valid r x → invRawKB W r x = invRawKP W r x := by
+    intro x ⟨u, hu, hx⟩
+    subst hx
+    exact invRawKB_eq hwf hkW hu
+  have hinv : ∀ c : Int, (reduceInt W r c).invKB W = (reduceInt W r c).invKP W := by
+    intro c
+    have hc := reduceInt_raw hwf c
+    have hrc := (Dashu.Props.C13.reduce_spec W r hwf c).2.2.2.2
+    unfold Elem.invKB Elem.invKP
+    rw [hrc, hc, invRawKB_eq hwf hkW (res_lt hm c)]
+    rfl
+  obtain ⟨k1, _⟩ := inv_div_kernels_all W id m hW r hnew hW4 a b
+  obtain ⟨_, k2⟩ := inv_div_kernels_all W id m hW r hnew hW4 a b
+  rw [reduceIntKL_eq hW hW4 hnew] at k1
+  rw [reduceIntKL_eq hW hW4 hnew, reduceIntKL_eq hW hW4 hnew] at k2
+  rw [reduceIntKA_eq hW hW4 hnew, reduceIntKA_eq hW hW4 hnew]
+  refine ⟨hraw, by rw [hinv a, k1], ?_⟩
+  rw [← k2]
+  unfold Elem.divKB Elem.divKA
+  rw [hinv b]
+  rfl
+
+/-- non-vacuity: a 3-word ring with shift 3; residues of one, two and three words (`gcd_ext_word`, `gcd_ext_dword`, Lehmer's
+    `gcd_ext_in_place`), cofactors of either sign: every `debug_assert` of the buffer plumbing holds and the result is the inverse;
+    a non-invertible residue of the ring modulo `15·(2^185 + 1)` gives `None` -/
+example : ∃ r, Ring.new 64 0 (2 ^ 188 + 12345) = .ok r ∧ r.k = 3 ∧
+    (invLargeB 64 r (7 * 2 ^ 3)).map (fun o => o.map (fun t => (t / 2 ^ 3 * 7) % (2 ^ 188 + 12345))) = .ok (some 1) ∧
+    (invLargeB 64 r (11 * 2 ^ 3)).map (fun o => o.map (fun t => (t / 2 ^ 3 * 11) % (2 ^ 188 + 12345))) = .ok (some 1) ∧
+    (invLargeB 64 r ((2 ^ 100 + 7) * 2 ^ 3)).map (fun o => o.map (fun t => (t / 2 ^ 3 * (2 ^ 100 + 7)) % (2 ^ 188 + 12345))) = .ok (some 1) ∧
+    (invLargeB 64 r ((2 ^ 150 + 9) * 2 ^ 3)).map (fun o => o.map (fun t => (t / 2 ^ 3 * (2 ^ 150 + 9)) % (2 ^ 188 + 12345))) = .ok (some 1) ∧
+    (invLargeB 64 r ((2 ^ 187 + 1) * 2 ^ 3)).map (fun o => o.map (fun t => (t / 2 ^ 3 * (2 ^ 187 + 1)) % (2 ^ 188 + 12345))) = .ok (some 1) :=
+  ⟨_, rfl, by decide, by decide +kernel, by decide +kernel, by decide +kernel, by decide +kernel, by decide +kernel⟩
+
+example : ∃ r, Ring.new 64 0 (15 * (2 ^ 185 + 1)) = .ok r ∧ r.k = 3 ∧ invLargeB 64 r (3 * 2 ^ 3) = .ok none ∧
+    invLargeB 64 r ((5 * (2 ^ 140 + 1)) * 2 ^ 3) = .ok none ∧ invLargeB 64 r 0 = .ok none :=
+  ⟨_, rfl, by decide, by decide +kernel, by decide +kernel, by decide +kernel⟩
 
 end Dashu.Props.C13Link
